@@ -5,6 +5,10 @@
      quara/interface/cvxpy/conversion.py : num_cvxpy_variable       (gen_num_cvxpy_variable)
          generate_cvxpy_constraints_from_cvxpy_variable(_with_sparsity)  (gen_constraints_dense / _sparse; generate_cvxpy_variable: shape check)
      quara/interface/cvxpy/qtomography/standard/loss_function.py : the three value_cvxpy expressions (gen_cvx_re / gen_cvx_se / gen_cvx_are)
+     ProjectedGradientDescentBacktracking.optimize, before the loop: start point and default mu (gen_start / gen_mu)
+     quara/interface/cvxpy/qtomography/standard/minimization_algorithm.py : CvxpyMinimizationAlgorithm.optimize dispatch
+         (gen_cvx_needs_outcomes / gen_cvx_constrained / gen_cvx_solver; objective, problem and result fields checked verbatim)
+     the two estimators' calc_estimate_sequence loop skeletons (gen_estimate_sequence / gen_cvx_estimate_sequence)
    The regenerated text equals the hand-written model (Model/C11_Pgdb.v, Model/C11_Cvx.v) the property theorems are stated about,
    for ALL inputs (every loss f, gradient g, projection P, square-root oracle sq, dimension, option values, start point, iteration
    limit and line-search fuel), hence the theorems of Props/C11.v (feasible monotone runs, first-success line search, ...) are
@@ -154,10 +158,32 @@ Theorem gen_cvx_are_eq : (forall i j, (i < S)%nat -> (j < nout i)%nat -> C11_gt 
 Proof. intros Hq. unfold gen_cvx_are, C11_cvx_are. rewrite acc2. apply sumn_ext; intros i Hi. f_equal. apply sumn_ext; intros j Hj.
   pose proof (Hq i j Hi Hj) as Hn. unfold C11_gt in *. destruct (negb (kleb F (q i j) eps)); [|ring].
   unfold C11_half. field. split; [exact (Hn eq_refl)|exact (double_neq0 F _ one_ne0)]. Qed.
+
+(* ---- before the loop of optimize: start point and default mu = the model's selection, for every option value *)
+Theorem gen_start_mu_eq : forall (sqrtn : nat -> F) (mu_opt : option F) (sl qn : option nat),
+  gen_mu F sqrtn mu_opt sl qn = C11_default_mu F sqrtn mu_opt sl qn
+  /\ (forall (V : Type) (origin : V) (vs : option V), gen_start origin vs = C11_start origin vs).
+Proof. intros sqrtn mu_opt sl qn. split; [|intros V origin [v|]; reflexivity].
+  assert (E3 : C11_nat_F F 3 = cadd F (cadd F (c1 F) (c1 F)) (c1 F)) by (cbn; ring).
+  assert (E2 : C11_nat_F F 2 = cadd F (c1 F) (c1 F)) by (cbn; ring).
+  unfold gen_mu, C11_default_mu, C11_mu_formula. rewrite E3, E2.
+  destruct mu_opt as [m|]; [destruct (keqb F m (c0 F))|]; cbn [negb]; destruct sl as [n1|]; destruct qn as [n2|]; reflexivity. Qed.
 End C11_EquivCvx.
 Print Assumptions gen_cvx_se_eq.
 Print Assumptions gen_cvx_re_eq.
 Print Assumptions gen_cvx_are_eq.
+Print Assumptions gen_start_mu_eq.
+
+(* ---- CvxpyMinimizationAlgorithm.optimize: the three dispatch tables = the model's, for every string *)
+Theorem gen_cvx_optimize_dispatch_eq : forall s : string,
+  gen_cvx_needs_outcomes s = C11_cvx_needs_outcomes s /\ gen_cvx_constrained s = C11_cvx_constrained s /\ gen_cvx_solver s = C11_cvx_solver s.
+Proof. intros s. unfold gen_cvx_needs_outcomes, C11_cvx_needs_outcomes, gen_cvx_constrained, C11_cvx_constrained, gen_cvx_solver, C11_cvx_solver.
+  split; [|split].
+  - destruct (String.eqb_spec s "state") as [->|]; [reflexivity|]. destruct (String.eqb_spec s "gate") as [->|]; [reflexivity|].
+    destruct (String.eqb s "povm"), (String.eqb s "mprocess"); reflexivity.
+  - destruct (String.eqb_spec s "unconstraint") as [->|]; [reflexivity|]. destruct (String.eqb s "physical"); reflexivity.
+  - destruct (String.eqb s "scs"), (String.eqb s "mosek"), (String.eqb s "cvxopt"); reflexivity. Qed.
+Print Assumptions gen_cvx_optimize_dispatch_eq.
 
 (* ---- the two constraint generators = the table of the model, for every type string and outcome count *)
 Theorem gen_constraints_eq : forall (t : string) (m : nat),
